@@ -204,13 +204,15 @@ class MultimapResolver:
             assignment = assignment_list[i]
             overlap_len = intersection_len(assignment.genomic_region, (assignment.start, assignment.end))
             max_overlap_len = max(overlap_len, max_overlap_len)
-            overlap_index_list.append((overlap_len, assignment.genomic_region[0], i))
+            # region start alone does not identify an alignment (same coordinates may occur on different chromosomes)
+            overlap_index_list.append((overlap_len, (assignment.genomic_region[0], assignment.chr_id,
+                                                     assignment.start, assignment.end), i))
 
         # select assignment with the best overlap with genic region and lowest region start (for reproducibility)
-        min_region_start = math.inf
+        min_region_start = None
         best_assignment = -1
         for info in overlap_index_list:
-            if info[0] == max_overlap_len and info[1] < min_region_start:
+            if info[0] == max_overlap_len and (min_region_start is None or info[1] < min_region_start):
                 min_region_start = info[1]
                 best_assignment = info[2]
 
